@@ -704,7 +704,7 @@ func syncOvertake(m *meta, rng *rand.Rand, round int) {
 	})
 	p3 := stepUntil(3, -100)
 	stepUntil(2, -100) // the stalled producer publishes
-	if p3 != kioshun.VerifStepDone {
+	for i := 0; i < 20 && p3 != kioshun.VerifStepDone; i++ { // generous: a slow machine must not look like a hang
 		p3 = stepUntil(3, -100)
 	}
 	kioshun.VerifSchedReset(false, 0)
@@ -806,7 +806,7 @@ func syncFence(m *meta, rng *rand.Rand, round int) {
 	}
 	stepUntil(1000, 301)
 	if p3 != kioshun.VerifStepDone {
-		for i := 0; i < 6 && p3 != kioshun.VerifStepDone; i++ {
+		for i := 0; i < 20 && p3 != kioshun.VerifStepDone; i++ {
 			p3 = stepUntil(3, -100)
 			if p3 != kioshun.VerifStepDone {
 				stepUntil(1000, 301)
